@@ -610,3 +610,62 @@ func negCmp(op token.Token) token.Token {
 	}
 	return op
 }
+
+// eventContainer: how a handler obtains the cached container its event refers to — a direct comma-ok
+// Cache.LookupContainer, or a helper of the same package that wraps that lookup and returns the container (nil when it
+// is unknown). It returns the instruction after which the container is available, its value, and the assumption "the
+// container is known".
+func (e *Engine) eventContainer(fn *ssa.Function) (at ssa.Instruction, val ssa.Value, known Assumption) {
+	lookup := e.objs(pkgCA, "Cache.LookupContainer")
+	if lc := firstCallOfObj(fn, lookup); lc != nil {
+		var v ssa.Value
+		if lc.Value() != nil && lc.Value().Referrers() != nil {
+			for _, ref := range *lc.Value().Referrers() {
+				if ex, ok := ref.(*ssa.Extract); ok && ex.Index == 0 {
+					v = ex
+				}
+			}
+		}
+		return lc.(ssa.Instruction), v, okOf(lc.Value(), true)
+	}
+	var hit ssa.CallInstruction
+	AllInstrs(fn, func(in ssa.Instruction) {
+		ci, ok := in.(ssa.CallInstruction)
+		if !ok || hit != nil || ci.Value() == nil {
+			return
+		}
+		g := ci.Common().StaticCallee()
+		if g == nil || g.Pkg == nil || fn.Pkg == nil || g.Pkg != fn.Pkg || g.Signature.Results().Len() != 1 {
+			return
+		}
+		inner := firstCallOfObj(g, lookup)
+		if inner == nil {
+			return
+		}
+		okAll := true
+		for _, ret := range Returns(g) {
+			if !originAll(ret.Results[0], func(v ssa.Value) bool {
+				if k, ok := v.(*ssa.Const); ok && k.IsNil() {
+					return true
+				}
+				if ex, ok := v.(*ssa.Extract); ok && ex.Tuple == inner.Value() && ex.Index == 0 {
+					return true
+				}
+				if mi, ok := v.(*ssa.MakeInterface); ok {
+					_ = mi
+					return false
+				}
+				return false
+			}) {
+				okAll = false
+			}
+		}
+		if okAll {
+			hit = ci
+		}
+	})
+	if hit == nil {
+		return nil, nil, nil
+	}
+	return hit.(ssa.Instruction), hit.Value(), nilnessOf(hit.Value(), false)
+}
